@@ -43,6 +43,36 @@ Definition src_allows (v mode : N) (prog : list N) (pc : nat) : bool :=
   | Some s => negb (N.eqb (N.land mode (os_modes s)) 0) && field_gate v mode s prog pc
   end.
 
+(* The same question answered from the FROZEN field specification (AvmFieldSpec.v) instead of the
+   regenerated field tables: every field immediate names a field the hand-reviewed list knows,
+   introduced at or before v, and not application-only when the mode is signature. *)
+Fixpoint frozen_fields_ok (v mode : N) (s : opspec) (imms : list immediate) (prog : list N) (pos : nat) : bool :=
+  match imms with
+  | [] => true
+  | im :: r =>
+      (match runtime_group s im with
+       | None => true
+       | Some g =>
+           match find (fun fs => N.eqb (fs_field fs) (byte_at prog pos)) (fg_fields g) with
+           | None => false
+           | Some fs =>
+               match spec_lookup (fg_name g) (fs_name fs) with
+               | Some (_, _, enc, ver, app_only) =>
+                   N.eqb enc (byte_at prog pos) && N.leb ver v && negb (app_only && N.eqb mode ModeSig)
+               | None => false
+               end
+           end
+       end) && frozen_fields_ok v mode s r prog (S pos)
+  end.
+
+Definition frozen_allows (v mode : N) (prog : list N) (pc : nat) : bool :=
+  let opcode := byte_at prog pc in
+  let sub := if is_prefix_src opcode then byte_at prog (S pc) else 0%N in
+  match src_lookup v opcode sub with
+  | None => false
+  | Some s => frozen_fields_ok v mode s (os_imms s) prog (S (if N.eqb (os_sub s) 0 then pc else S pc))
+  end.
+
 (* ------------------------------------------------------------------ parsing *)
 Definition parse_sval (t : term) : option sval :=
   match t with
@@ -78,7 +108,7 @@ Definition check_x (v mode lsv : N) (prog : list N) (tpc : nat) (ckbudget : Z) (
   let allowed := src_allows v mode prog tpc in
   let reached := match tstack with Some _ => N.eqb tcls 0 | None => false end in
   (* the property, on the implementation's observation *)
-  let spec_ok := implb reached allowed
+  let spec_ok := implb reached (allowed && frozen_allows v mode prog tpc)
                  && implb (touched && reached) (negb (src_allows v mode_sig prog tpc)) in
   let mpre := match tstack with Some stk => pre_class v mode prog tpc stk rem | None => 0%N end in
   let corr_eval :=
